@@ -123,7 +123,7 @@ func classify(c Case) core.Class {
 	var cl core.Class
 	mut := "none"
 	for _, m := range c.Mut {
-		if !isZooLabel(m) { // (labels of the white space zoo are not mutations)
+		if !isZooLabel(m) && !isSplatLabel(m) { // (labels of the white space zoo / of the access-chain grammar are not mutations)
 			mut = m
 			break
 		}
@@ -134,8 +134,8 @@ func classify(c Case) core.Class {
 			cl.Labels = append(cl.Labels, m) // classes of the directive family
 			continue
 		}
-		if isZooLabel(m) {
-			cl.Labels = append(cl.Labels, m) // classes of the white space zoo
+		if isZooLabel(m) || isSplatLabel(m) {
+			cl.Labels = append(cl.Labels, m) // classes of the white space zoo / of the access-chain grammar
 			continue
 		}
 		cl.Labels = append(cl.Labels, "mut:"+m)
@@ -166,6 +166,7 @@ func classify(c Case) core.Class {
 	}
 	sort.Strings(cl.Labels)
 	zooCount(cl.Labels)
+	splatCount(cl.Labels)
 	cl.NonTrivial = o.interesting
 	he := "ok"
 	if o.hasErr {
@@ -196,6 +197,20 @@ func classify(c Case) core.Class {
 		cl.Fingerprint = strings.Join([]string{c.Entry, c.Gen, mut, cont, rec, he}, "|")
 		return cl
 	}
+	if c.Gen == "splat" {
+		// (entry point, splat nesting, position the chain stands in, has-errors)
+		level, use := "", ""
+		for _, m := range c.Mut {
+			if m == "splat:none" || m == "splat:single" || m == "splat:nested" {
+				level = m
+			}
+			if strings.HasPrefix(m, "use:") && use == "" {
+				use = m
+			}
+		}
+		cl.Fingerprint = strings.Join([]string{c.Entry, c.Gen, level, use, he}, "|")
+		return cl
+	}
 	if c.Gen == "wszoo" {
 		// (entry point, construct in focus, zoo characters placed or not, has-errors)
 		focus, placed := "", "blank-only"
@@ -221,7 +236,7 @@ var assumptions = []string{
 	"hclsyntax.Attributes / hclsyntax.Blocks (grouping nodes with a documented arbitrary range) are transparent for the child-inside-parent check; *AnonSymbolExpr (synthetic splat item placeholder located at the marker) is only required to lie inside the input",
 	"termination: a single input is given 30 s (measured normal cost is reported in extra: slowest observed case ~2 s under heavy machine load); a slower one is reported as hang, nothing else is timing dependent",
 	"inputs whose cost is high by design are kept out of the watchdog's way: (#\"/*\") * len(input) <= 2^27 (each unterminated block-comment opener makes the generated scanner run to the end of the input and backtrack: 64 KiB of \"/* \" lexes in ~19 s), and evaluation is skipped (parsing and range checks are not) when for/splat nesting exceeds 6 or a number has an exponent of 5+ digits (3^depth iterations / 100 MB strings by the semantics of the language)",
-	"the evaluation context holds strings, numbers, bools, lists, maps, sets, objects, tuples, null, unknown and dynamic values and a few cty stdlib functions plus try/can; no marked values (gocty, used by gohcl, does not support marks; Havoc never marks values)",
+	"the evaluation contexts (fullCtx, collCtx) hold strings, numbers, bools, lists, maps, sets, objects, tuples, typed empty collections, lists of lists with empty / unknown / null rows, null, unknown and dynamic values and cty stdlib functions (string and collection functions) plus try/can; no marked values (gocty, used by gohcl, does not support marks; Havoc never marks values)",
 	"nesting produced by the repeat mutation in (a) is capped at the depth bound of (b), 5000 (the native parser exhausts the 1 GB goroutine stack somewhere between 50 000 and 200 000 nested parentheses, the JSON parser between 100 000 and 1 000 000 brackets: beyond the bound the property names)",
 }
 
@@ -229,7 +244,7 @@ func TestC17a(t *testing.T) {
 	tmPrefix = "a_"
 	core.Run(t, core.Spec[Case]{
 		Property: "C17", Sub: "a",
-		Rule: "inputs: random bytes (biased to scanner-relevant characters), grammar-generated native config/expression/template/traversal/JSON text, and the repo's own corpora (hclsyntax/fuzz, hclwrite/fuzz, json/fuzz, specsuite, profiles/*.yaotl), plus a template-directive family (well-formed if/else/endif/for/in/endfor directives and their near-misses: keyword followed by keyword/identifier such as `else if x`, missing/duplicated keyword, keyword in the wrong block, two-variable for with junk at every position, unknown keywords elif/elseif/elsif/end, nests cut at every token boundary, strip markers; nested to depth 3; in quoted strings, heredocs, bare templates and JSON strings; optionally after an earlier syntax error so that the parser is in recovery mode), then 0-3 mutations out of flip/delete/dup/repeat/insert-token/truncate/bad-UTF-8/BOM/CRLF/splice/white-space-zoo; 12% of cases feed one syntax to another entry point; size <= 16 KiB quick / 256 KiB thorough. Entry points: hclsyntax.ParseConfig/ParseExpression/ParseTemplate/ParseTraversalAbs/LexConfig/LexExpression/LexTemplate, json.Parse/ParseExpression, hclwrite.ParseConfig. Oracle: no panic, returns within 30 s, token stream covers the input (ascending, no overlap, Bytes == src[range], gaps only space/tab in main mode and none in template modes, leading BOM, EOF at len; line numbers = 1 + preceding newlines for well-formed UTF-8 input), every node/traversal/diagnostic range inside the input with Start<=End, children inside parents, and with no error diagnostic evaluation (nil/empty/populated context), JustAttributes, hcldec.Decode (derived permissive spec + fixed spec) and gohcl.DecodeBody (remain) do not panic. Non-trivial: the input got past the lexer with >=1 token other than EOF/Newline/Invalid/BadUTF8 (JSON: first non-blank byte can start a value). distinct = (entry point, generator class, first mutation, length bucket, has-errors). White space zoo (gen:wszoo, 9% of cases; also switched on at 5-30% in 15% of the plain grammar cases, in one directive-family case in five, and as mutation wszoo on any base): at every position where the grammar allows or tolerates blanks - around `=`, after `{`, before `}`, line starts and line ends, block labels, before and after the heredoc OPENING marker, heredoc body indentation and line ends, before and after the heredoc CLOSING marker (<<ID and <<-ID, indented or not), inside `${ }` and `%{ }` (also of templates inside JSON strings, raw or escaped), between call arguments, inside brackets/parentheses, around operators and `? :`, in for clauses, between traversal steps, between JSON tokens - a run (one character, 2-4 mixed or repeated, or 5-40) drawn from {space, tab, FF, VT, lone CR, U+0085, U+00A0, U+1680, U+2003, U+2028, U+2029, U+3000, U+FEFF, U+200B} stands instead of the blanks; one construct is in focus per case (attribute, block, one-line block, heredoc, flush heredoc, heredoc in a block, interpolation, directive, call, object, tuple, for, conditional, traversal, JSON) with the zoo at 15-100% of its positions; the mutation picks its 1-3 positions by category (line end, line start, `=`, braces, template sequence delimiters, brackets/commas, an existing blank run, heredoc opening/closing marker lines found in the text). No acceptance is expected of these characters (most yield Invalid tokens and diagnostics): the oracle is unchanged - in particular tokens must tile the input with gaps of exactly what the scanner's main machine skips (space, tab) and no gaps in the template machines. Labels ws:zoo, focus:*, wsat:<position>, wsch:<character> (complete counts in extra a_wszoo_label_counts_last_shard); distinct for gen:wszoo = (entry point, construct in focus, zoo placed, has-errors)",
+		Rule: "inputs: random bytes (biased to scanner-relevant characters), grammar-generated native config/expression/template/traversal/JSON text, and the repo's own corpora (hclsyntax/fuzz, hclwrite/fuzz, json/fuzz, specsuite, profiles/*.yaotl), plus a template-directive family (well-formed if/else/endif/for/in/endfor directives and their near-misses: keyword followed by keyword/identifier such as `else if x`, missing/duplicated keyword, keyword in the wrong block, two-variable for with junk at every position, unknown keywords elif/elseif/elsif/end, nests cut at every token boundary, strip markers; nested to depth 3; in quoted strings, heredocs, bare templates and JSON strings; optionally after an earlier syntax error so that the parser is in recovery mode), then 0-3 mutations out of flip/delete/dup/repeat/insert-token/truncate/bad-UTF-8/BOM/CRLF/splice/white-space-zoo; 12% of cases feed one syntax to another entry point; size <= 16 KiB quick / 256 KiB thorough. Entry points: hclsyntax.ParseConfig/ParseExpression/ParseTemplate/ParseTraversalAbs/LexConfig/LexExpression/LexTemplate, json.Parse/ParseExpression, hclwrite.ParseConfig. Oracle: no panic, returns within 30 s, token stream covers the input (ascending, no overlap, Bytes == src[range], gaps only space/tab in main mode and none in template modes, leading BOM, EOF at len; line numbers = 1 + preceding newlines for well-formed UTF-8 input), every node/traversal/diagnostic range inside the input with Start<=End, children inside parents, and with no error diagnostic evaluation (nil/empty/populated context), JustAttributes, hcldec.Decode (derived permissive spec + fixed spec) and gohcl.DecodeBody (remain) do not panic. Non-trivial: the input got past the lexer with >=1 token other than EOF/Newline/Invalid/BadUTF8 (JSON: first non-blank byte can start a value). distinct = (entry point, generator class, first mutation, length bucket, has-errors). White space zoo (gen:wszoo, 9% of cases; also switched on at 5-30% in 15% of the plain grammar cases, in one directive-family case in five, and as mutation wszoo on any base): at every position where the grammar allows or tolerates blanks - around `=`, after `{`, before `}`, line starts and line ends, block labels, before and after the heredoc OPENING marker, heredoc body indentation and line ends, before and after the heredoc CLOSING marker (<<ID and <<-ID, indented or not), inside `${ }` and `%{ }` (also of templates inside JSON strings, raw or escaped), between call arguments, inside brackets/parentheses, around operators and `? :`, in for clauses, between traversal steps, between JSON tokens - a run (one character, 2-4 mixed or repeated, or 5-40) drawn from {space, tab, FF, VT, lone CR, U+0085, U+00A0, U+1680, U+2003, U+2028, U+2029, U+3000, U+FEFF, U+200B} stands instead of the blanks; one construct is in focus per case (attribute, block, one-line block, heredoc, flush heredoc, heredoc in a block, interpolation, directive, call, object, tuple, for, conditional, traversal, JSON) with the zoo at 15-100% of its positions; the mutation picks its 1-3 positions by category (line end, line start, `=`, braces, template sequence delimiters, brackets/commas, an existing blank run, heredoc opening/closing marker lines found in the text). No acceptance is expected of these characters (most yield Invalid tokens and diagnostics): the oracle is unchanged - in particular tokens must tile the input with gaps of exactly what the scanner's main machine skips (space, tab) and no gaps in the template machines. Labels ws:zoo, focus:*, wsat:<position>, wsch:<character> (complete counts in extra a_wszoo_label_counts_last_shard); distinct for gen:wszoo = (entry point, construct in focus, zoo placed, has-errors). Access chains over collection-valued sources (gen:splat, 8% of cases; also alternative 22 of the expression grammar, so it occurs inside every other construct): source = literal tuple/object of 0-4 ROWS drawn from one family (lists of numbers, lists of strings, objects with a list attribute, lists of lists, objects with different attribute sets, mixed types - empty and non-empty rows mixed), empty literals ([], {}, null, [[]], [{}]), a parenthesised conditional whose branches are tuples/objects of equal or different lengths and of the same or different families (different lengths unify to a list/map or fail; predicate literal, variable or unknown), for expressions (tuple form, object form, grouping `...`, with `if`, over any source), calls of collection functions (tolist/toset/tomap/concat/keys/values/flatten/reverse/slice/chunklist/range/zipmap/merge/setunion/coalescelist/distinct/compact/sort/split/element/lookup/try/f), variables of the evaluation context collCtx (list(list(number)) with mixed/all-empty/all-non-empty rows, list(object) with a list attribute, list of lists of lists, sets and maps of lists, lists of maps/sets, cty.ListValEmpty/SetValEmpty/MapValEmpty of several element types, lists with an unknown or null row, list(dynamic), unknown and null collections, tuples, objects), or any parenthesised expression; chain = no splat (1-3 index/attribute/legacy-index steps), one splat, or 2-3 nested splats (`[*]` or `.*`) with 0-1 steps between them and 0-2 after them; use = bare, inside \"${ }\", as for collection, as for condition, as conditional predicate, as call argument, as %{ for } collection, as %{ if } predicate, indexed/splatted again after parentheses, in an equality, as object value; for JSON entry points the chain stands in ${ } inside JSON strings and keys. Evaluation of every input without error diagnostics now also runs with collCtx (in addition to nil, empty and fullCtx; hcldec/gohcl decoding and TraverseAbs likewise); collCtx also binds the short identifiers of the plain grammar (a, b, c, x, y, v, k, foo, ...) to those typed collections. Oracle unchanged (no panic, ranges inside the input; evaluation errors are fine). Labels src:<kind>, srctype:list|set (list/set-typed on HEAD by construction; TestC17SplatSourceClaims checks this bookkeeping), rows:mixed-empty-nonempty|all-empty|all-nonempty|none, rowfam:*, splat:none|single|nested, splat:full, splat:attr, use:*, and the conjunction splat:nested-x-list-x-mixed-rows (complete counts in extra a_splat_label_counts_last_shard); distinct for gen:splat = (entry point, splat nesting, use, has-errors)",
 		Gen:   genCase, Check: check, Classify: classify,
 		Assumptions: assumptions,
 	})
